@@ -3,6 +3,8 @@ package props
 import (
 	"fmt"
 	"go/constant"
+	"go/token"
+	"go/types"
 	"sort"
 	"strings"
 
@@ -164,4 +166,103 @@ func baseName(n string) string {
 		return n[:i]
 	}
 	return n
+}
+
+// deferredErrStores lists, for fn, the stores performed inside deferred function literals of fn into a captured variable of
+// type error, and says for each whether the captured variable is a NAMED RESULT of fn (only then does the store change what
+// fn returns: a deferred assignment to an ordinary local happens after the return value was already evaluated).
+type deferredErrStore struct {
+	Store   *ssa.Store
+	Closure *ssa.Function
+	Named   bool
+	Var     string
+}
+
+func deferredErrStores(fn *ssa.Function) []deferredErrStore {
+	var out []deferredErrStore
+	named := map[token.Pos]bool{}
+	if res := fn.Signature.Results(); res != nil {
+		for i := 0; i < res.Len(); i++ {
+			if n := res.At(i).Name(); n != "" && n != "_" {
+				named[res.At(i).Pos()] = true
+			}
+		}
+	}
+	for _, b := range fn.Blocks {
+		for _, in := range b.Instrs {
+			d, ok := in.(*ssa.Defer)
+			if !ok {
+				continue
+			}
+			mc, ok := eng.Unwrap(d.Call.Value).(*ssa.MakeClosure)
+			if !ok {
+				continue
+			}
+			cl := mc.Fn.(*ssa.Function)
+			for _, cb := range cl.Blocks {
+				for _, cin := range cb.Instrs {
+					st, ok := cin.(*ssa.Store)
+					if !ok {
+						continue
+					}
+					fv, ok := st.Addr.(*ssa.FreeVar)
+					if !ok || !isErrorType(st.Val.Type()) {
+						continue
+					}
+					// binding of the free variable in the closure creation
+					idx := -1
+					for i, v := range cl.FreeVars {
+						if v == fv {
+							idx = i
+						}
+					}
+					if idx < 0 || idx >= len(mc.Bindings) {
+						continue
+					}
+					al, isAlloc := mc.Bindings[idx].(*ssa.Alloc)
+					isNamed := isAlloc && named[al.Pos()] && al.Parent() == fn
+					out = append(out, deferredErrStore{st, cl, isNamed, fv.Name()})
+				}
+			}
+		}
+	}
+	return out
+}
+
+func isErrorType(t types.Type) bool {
+	nt, ok := t.(*types.Named)
+	return ok && nt.Obj().Pkg() == nil && nt.Obj().Name() == "error"
+}
+
+// passesOnEveryExit: every return of fn (success or failure) is preceded by an m-site: either fn must-pass m directly, or a
+// deferred function literal registered before any return can happen (its defer dominates every return) must-pass m.
+func passesOnEveryExit(p *eng.Prog, fn *ssa.Function, m eng.Matcher) (bool, string) {
+	if p.MustPass(fn, m, 1) {
+		return true, "direct"
+	}
+	for _, b := range fn.Blocks {
+		for _, in := range b.Instrs {
+			d, ok := in.(*ssa.Defer)
+			if !ok {
+				continue
+			}
+			var cl *ssa.Function
+			if mc, ok := eng.Unwrap(d.Call.Value).(*ssa.MakeClosure); ok {
+				cl = mc.Fn.(*ssa.Function)
+			} else if sf := d.Call.StaticCallee(); sf != nil {
+				cl = sf
+			}
+			if cl == nil || cl.Blocks == nil || !p.MustPass(cl, m, 1) {
+				continue
+			}
+			// the defer is registered on every path to every return
+			_, leak := eng.PathExists(eng.PathQuery{Fn: fn,
+				Target:  func(x ssa.Instruction) bool { _, ok := x.(*ssa.Return); return ok && x.Block() != fn.Recover },
+				Blocked: func(x ssa.Instruction) bool { return x == in }})
+			if !leak {
+				return true, "deferred"
+			}
+		}
+	}
+	return false, "a return is reachable without the reset (neither on the path nor in a defer registered before it)"
 }
